@@ -119,6 +119,8 @@ def h_completion(c):
     coefs = dec(c["coefs"])
     if c.get("complex"):
         coefs = numpy.array(coefs, dtype=complex)
+        if c.get("dtype"):
+            coefs = coefs.astype(getattr(numpy, c["dtype"]))     # the same (exactly representable) values in a single-precision array
     elif c.get("as_list"):
         coefs = [float(x) for x in coefs]
     else:
@@ -130,7 +132,7 @@ def h_completion(c):
         kw["tol"] = dec(c["tol"])
     if c.get("seed") is not None:
         kw["seed"] = list(c["seed"])
-    before = coefs.copy()
+    before = coefs.copy() if hasattr(coefs, "copy") and not isinstance(coefs, list) else list(coefs)
     with randint_bits(c.get("bits")) as stub:
         g = completion_from_root_finding(coefs, **kw)
     r = enc_lalg(g)
